@@ -747,6 +747,7 @@ def run(ctx):
     rep.floor('F5b', 1)
     rep.floor('F5c', 1)
     rep.floor('F5d', 1)
+    rep.floor('F5e', 1)
     rep.floor('F2c', 4)
     rep.floor('F2', 10)
     rep.floor('F2s', 5)
